@@ -6,12 +6,11 @@ From PV Require Import proofs.SccDecodeFacts proofs.SccLayoutFacts proofs.SccCom
 Import ListNotations.
 Open Scope Z_scope.
 
-Lemma spaced_b_sound : forall caps p, spaced_b p caps = true -> caps_spaced p caps.
+Lemma spaced_b_sound : forall caps p, spaced_b p caps = true -> spaced_w p caps.
 Proof.
   induction caps as [|c t IH]; intros p H; [exact I|]. cbn [spaced_b] in H.
-  apply andb_prop in H. destruct H as [H H4]. apply andb_prop in H. destruct H as [H H3]. apply andb_prop in H. destruct H as [H1 H2].
-  cbn [caps_spaced]. split; [apply Qle_bool_iff; exact H1|]. split; [apply Qle_bool_iff; exact H2|]. split; [|apply IH; exact H4].
-  destruct t as [|c' t']; [exact I|]. apply Qle_bool_iff. exact H3.
+  apply andb_prop in H. destruct H as [H H4]. apply andb_prop in H. destruct H as [H1 H2].
+  cbn [spaced_w]. split; [apply Qle_bool_iff; exact H1|]. split; [apply Qle_bool_iff; exact H2|apply IH; exact H4].
 Qed.
 
 Theorem caps_ok_b_sound : forall caps, caps_ok_b caps = true -> caps_ok caps.
@@ -27,10 +26,9 @@ Proof.
     apply negb_true_iff in H4. apply Qnot_le_lt. intros X. apply Qle_bool_iff in X. congruence.
 Qed.
 
-(* on the decidable domain the reader model's answer is one of: captions, line-length refusal, flash refusal *)
-Theorem reread_class_on_domain : forall caps, caps_ok_b caps = true -> caps <> [] ->
-  reread_class caps = 0 \/ reread_class caps = 1 \/ reread_class caps = 2.
+(* on the decidable domain the reader model returns captions for the writer model's document *)
+Theorem reread_class_on_domain : forall caps, caps_ok_b caps = true -> caps <> [] -> reread_class caps = 0.
 Proof.
   intros caps H Ne. unfold reread_class.
-  destruct (reread_refusals caps (caps_ok_b_sound caps H) Ne) as [(pcs & ->)|[(m & ->)| ->]]; auto.
+  destruct (reread_store caps (caps_ok_b_sound caps H) Ne) as (pcs & -> & _). reflexivity.
 Qed.
